@@ -260,6 +260,7 @@ pub struct FrontendCtx<'a, R: FileManager> {
     pub recursive_generic_uuids: BTreeSet<RuntypeUUID>,
 
     pub counter: usize,
+    pub semantic_result_counter: usize,
 
     pub type_application_stack: Vec<(String, Runtype)>,
     jsdoc_cache_by_file: BTreeMap<BffFileName, JsdocFileCache>,
@@ -1075,6 +1076,7 @@ impl<'a, R: FileManager> FrontendCtx<'a, R> {
             errors: vec![],
             partial_validators: BTreeMap::new(),
             counter: 0,
+            semantic_result_counter: 0,
 
             type_application_stack: vec![],
             recursive_generic_uuids: BTreeSet::new(),
@@ -3019,14 +3021,15 @@ impl<'a, R: FileManager> FrontendCtx<'a, R> {
         })? {
             return Ok(Runtype::never());
         }
+        // the name under which a self-referential result is defined: one per semantic computation
+        self.semantic_result_counter += 1;
         let (head, tail) = semtype_to_runtypes(
             ctx,
             &access_st,
-            // TODO: do we need this?
             &RuntypeUUID {
                 ty: RuntypeName::Address(TypeAddress {
                     file: anchor.f.clone(),
-                    name: "AnyName".into(),
+                    name: format!("SemanticResult{}", self.semantic_result_counter),
                 }),
                 type_arguments: vec![],
             },
